@@ -39,6 +39,16 @@ Theorem C06_acked_stays : forall c evs1 evs2 s1 s,
 Proof. exact acked_survives. Qed.
 Print Assumptions C06_acked_stays.
 
+(* (4) leftover objects of interrupted uploads never block the restart: after any history,
+       a getPartitionLog that meets no transient fault succeeds (an orphan .kfs without
+       .index only ever sits at the write frontier, never below the stored next_offset),
+       and by (1) the restarted log then holds every acknowledged batch. *)
+Theorem C06_orphans_harmless : forall c evs s ok,
+  run (init c) evs = Some s -> s_live s = false ->
+  exists s', step s (ERestart ok) = Some s' /\ s_live s' = true.
+Proof. exact restart_never_blocked. Qed.
+Print Assumptions C06_orphans_harmless.
+
 (* non-vacuity: crash between segment put and index put of the second flush (orphan
    .kfs at base 1), lost store update, restart (orphan skipped, offsets resynced),
    new append reuses base 1 and overwrites the orphan; the acked batch stays. *)
